@@ -323,10 +323,37 @@ def sameKind : CV → CV → Bool
   | .bool _, .bool _ => true
   | _, _ => false
 
+def mpaOf : CV → MInt
+  | .int _ v => v
+  | .bool _ => { bits := 1 }
+
+/-- `Cmp` (small: `Int64()`, large: `signed(bits-1)`) sees the typed values. -/
+def cmpAgrees (signed : Bool) (n : Nat) (l r : CV) : Bool :=
+  let typed (c : CV) : Int := if signed then (seenBV n c).toInt else ((seenBV n c).toNat : Int)
+  if (mpaOf l).isSmall && (mpaOf r).isSmall then int64Agrees signed n l && int64Agrees signed n r
+  else (mpaOf l).signedVal == typed l && (mpaOf r).signedVal == typed r
+
+/-- Large path (`n > 64`): no theorem covers it; the names describe the known
+failure regions, `wide-unproved` the rest (where the model and the run-time
+circuit are expected to agree). -/
+def hypsWide (op : Op) (signed : Bool) (n : Nat) (l r : CV) : List String :=
+  let x := mpaOf l
+  let y := mpaOf r
+  let m := max x.bits y.bits
+  match op with
+  | .add | .sub =>
+    if m + 1 < n then ["wide-addsub-operands-narrower-than-result"] else ["wide-unproved"]
+  | .div | .mod =>
+    if 0 ≤ x.bigv ∧ 0 ≤ y.bigv ∧ x.bigv < 2 ^ (m - 1) ∧ y.bigv < 2 ^ (m - 1) ∧ y.bigv ≠ 0 then ["wide-unproved"]
+    else ["wide-signed-divider-at-operand-size"]
+  | .shr => if signed && (seenBV n l).msb then ["wide-rsh-not-arithmetic"] else ["wide-unproved"]
+  | .lt | .le | .gt | .ge | .eq | .ne => if cmpAgrees signed n l r then ["wide-unproved"] else ["wide-cmp-sign-from-operand-size"]
+  | _ => ["wide-unproved"]
+
 /-- Violated hypotheses of the theorem for `op` (integer operands, `n` bits). -/
 def hyps (op : Op) (signed : Bool) (n : Nat) (l r : CV) : List String :=
   let h (name : String) (ok : Bool) : List String := if ok then [] else [name]
-  if n > 64 then ["wide"] else
+  if n > 64 then hypsWide op signed n l r else
   h "small-operands" (smallOperand n l && (op == .neg || smallOperand (if op.isShift then 0 else n) r)) ++
   (match op with
    | .add => h "add-size" (decide (n ≤ max (mpaBits l) (mpaBits r))) ++ h "kind" (sameKind l r)
